@@ -223,7 +223,7 @@ func runC04Cuts(c *core.Ctx) *core.Violation {
 		conf.Options.FilterDBBlacklist = f.DBBlack
 	}
 	o0 := int64([]int{0, 1000, 123456789}[t.Choose(3)])
-	so := StreamOpts{MaxCmds: 40, DBs: 3, StartDB: -1, NonIdem: true, MinCmds: 8}
+	so := StreamOpts{MaxCmds: 40, DBs: 3, StartDB: -1, NonIdem: true, MinCmds: 8, BigValues: t.Choose(4) == 3}
 	if c.Thorough() {
 		so.MaxCmds = 80
 	}
